@@ -337,8 +337,11 @@ class Ctx(object):
             "wall_s": round(time.time() - self.t0, 2),
             "violations": len(self.violations),
         }
-        os.makedirs(os.path.join(VERIF, "evidence"), exist_ok=True)
-        with open(os.path.join(VERIF, "evidence", self.pid + ".json"), "w") as f:
+        # checks that grow the specification beyond the listed properties (ids X01, X02, ...) keep their
+        # evidence apart from the per-property files named in MANIFEST.json
+        evdir = os.path.join(VERIF, "evidence", "extra") if self.pid.startswith("X") else os.path.join(VERIF, "evidence")
+        os.makedirs(evdir, exist_ok=True)
+        with open(os.path.join(evdir, self.pid + ".json"), "w") as f:
             json.dump(ev, f, indent=1, default=repr)
         for key, what in self.known_hits:
             print("KNOWN-FINDING: property=%s %s: %s" % (self.pid, key, what))
